@@ -1521,3 +1521,42 @@ class Aifb:
             x = pt + e
             z = z - (A[i + 1] - A[i]) * (v + gy)
         return (f.value(x) + gval(x) - Fs) / float((x0 - xs) @ (x0 - xs)), "PEPit.examples.inexact_proximal_methods", "wc_accelerated_inexact_forward_backward", p
+
+
+@family("epsilon_subgradient")
+class EpsSubgradient:
+    @staticmethod
+    def params(draw, L):
+        return {"M": draw(sf([1, 2])), "n": draw(st.integers(1, 3)), "gamma": draw(sf([0.2, 0.5, 1.0])), "eps": draw(sf([0.0, 0.1, 0.5, 2.0])),
+                "R": draw(sf([1, 2]))}
+
+    @staticmethod
+    def run(case, rng):
+        p, n, kind, slack = case["params"], case["n_dim"], case["member"], case["slack"]
+        M, N, g, eps, R = p["M"] / slack, p["n"], p["gamma"], p["eps"], p["R"]
+        # f = M |x - c|_2 ; g is an eps-subgradient at x != c iff |g| <= M and M |x - c| - <g, x - c> <= eps
+        c = members.int_vec(rng, n, -2, 2).astype(float)
+        x = c + unit(rng, n) * R * rng.choice([1.0, 1.0, 0.6])
+        best = M * float(np.linalg.norm(x - c))
+        tilt = float(rng.choice([1.0, 1.0, 0.5, 0.0]))
+        for _ in range(N):
+            d = x - c
+            r = float(np.linalg.norm(d))
+            if r <= 1e-12:
+                sub = M * unit(rng, n) * rng.uniform(0, 1)            # any vector of the ball is a subgradient at the kink
+            else:
+                dh = d / r
+                cos_min = max(-1.0, 1.0 - eps / (M * r)) if M > 0 else 1.0
+                cos_t = 1.0 - tilt * (1.0 - cos_min)
+                w = unit(rng, n)
+                w = w - (w @ dh) * dh
+                if n == 1 or np.linalg.norm(w) < 1e-9:
+                    # one dimension: the eps-subdifferential is the interval [M cos_min, M] times the sign of d
+                    sub = M * cos_t * dh
+                else:
+                    w = w / np.linalg.norm(w)
+                    sub = M * (cos_t * dh + math.sqrt(max(0.0, 1 - cos_t ** 2)) * w)
+                assert M * r - float(sub @ d) <= eps + 1e-9 and np.linalg.norm(sub) <= M * (1 + 1e-12)
+            x = x - g * sub
+            best = min(best, M * float(np.linalg.norm(x - c)))
+        return best, UC, "wc_epsilon_subgradient_method", p
